@@ -221,6 +221,7 @@ func runC11(c *fw.Case) {
 	c.Count("heights_compared", int64(len(n.Digests)))
 	c.Count("txs", int64(r.txCount))
 	c.Count("real_gov_proposals_submitted", int64(r.proposals))
+	c.Count("legacy_param_change_proposals_submitted", int64(r.legacyProposals))
 	c.Count("updates_accepted", int64(r.updatesOK))
 	c.Max("max_distributor_states", int64(states))
 	c.Nontrivial(r.txCount >= 25 && r.updatesOK > 0 && states >= 4)
